@@ -18,10 +18,12 @@ suite passes with it, its demonstration test passes without it and fails with it
 run against that worktree (`VERIF_REPO=<worktree> bin/check <id>`; /repo itself is never touched). `patch.diff`, the demonstration
 and `meta.json` are kept under `seeded/<name>/`. %d changes, all detected by the quick tier; the last column says which ones were
 MISSED when first evaluated and what was added to the specification / families because of it (a check was never loosened).
-Four rounds were run (names without a round tag are round 1). Kept changes / of which first missed, per round: 19 / 7, 19 / 11, 7 / 6, 15 / 2 - the last round's two
-(a profile's `ParseRef` against an opaque-path base, and an accessor that depends on WHICH IPv6 address the host is) led to the
-`CanonRunB` operator and the address-kind families. Changes that repeated an archived one (same edit or same manifestation: in round 4
-C03, C11, C13, C17, C20) were evaluated - all detected - and not archived again. After a fix commit rewrites the patched region a
+Five rounds were run (names without a round tag are round 1). Kept changes / of which first missed, per round: 19 / 7, 19 / 11, 7 / 6, 15 / 2,
+7 / 1 (plus one caught by the check of its own property but missed by a second check it also breaks). Round 4's two misses (a profile's
+`ParseRef` against an opaque-path base, and an accessor that depends on WHICH IPv6 address the host is) led to the `CanonRunB` operator and the
+address-kind families; round 5's (a run of escaped invalid bytes in a query collapsed to one U+FFFD) to the `formparse_bytes` family. Changes
+that repeated an archived one (same edit or same manifestation: C03, C11, C13, C17, C20 in round 4, C18 in round 5) were evaluated - all
+detected - and not archived again. The whole archive was re-run after round 4 (60 of 60 detected by the quick tier). After a fix commit rewrites the patched region a
 patch is rebased onto the repaired tree (noted in its `meta.json`); `tools/eval_all_seeded.sh` re-runs the whole archive.
 
 | seeded change | breaks | needs, in order to manifest | detected by | missed before strengthening |
